@@ -123,38 +123,38 @@ def install_sim_wrappers():
     o_spc, o_spcm, o_liq, o_out, o_daily = (bm._simulate_price_change_effect, bm._simulate_price_change_effect_multiple_candles,
                                             bm._check_for_liquidations, bm._generate_outputs, bm.save_daily_portfolio_balance)
 
-    def spc(real_candle, exchange, symbol):
+    def spc(real_candle, exchange, symbol, *a, **k):  # extra arguments of a changed signature are passed through
         ctx = CURRENT[0]
         if ctx is None:
-            return o_spc(real_candle, exchange, symbol)
+            return o_spc(real_candle, exchange, symbol, *a, **k)
         ctx.trace.append(dict(ev='minute', sym=symbol, candle=[float(x) for x in real_candle], t=store.app.time))
         prev, ctx.phase = ctx.phase, 'match'
         try:
-            return o_spc(real_candle, exchange, symbol)
+            return o_spc(real_candle, exchange, symbol, *a, **k)
         finally:
             ctx.phase = prev
             ctx.trace.append(dict(ev='minute-end', sym=symbol, t=store.app.time))
 
-    def spcm(short_candles, exchange, symbol):
+    def spcm(short_candles, exchange, symbol, *a, **k):
         ctx = CURRENT[0]
         if ctx is None:
-            return o_spcm(short_candles, exchange, symbol)
+            return o_spcm(short_candles, exchange, symbol, *a, **k)
         ctx.trace.append(dict(ev='chunk', sym=symbol, candles=np.array(short_candles, dtype=float).tolist(), t=store.app.time))
         prev, ctx.phase = ctx.phase, 'match'
         try:
-            return o_spcm(short_candles, exchange, symbol)
+            return o_spcm(short_candles, exchange, symbol, *a, **k)
         finally:
             ctx.phase = prev
             ctx.trace.append(dict(ev='chunk-end', sym=symbol, t=store.app.time))
 
-    def liq(candle, exchange, symbol):
+    def liq(candle, exchange, symbol, *a, **k):
         ctx = CURRENT[0]
         if ctx is None:
-            return o_liq(candle, exchange, symbol)
+            return o_liq(candle, exchange, symbol, *a, **k)
         from jesse.services import selectors
         p = selectors.get_position(exchange, symbol)
         if p is None:  # a symbol that is only observed through a data route has no position
-            return o_liq(candle, exchange, symbol)
+            return o_liq(candle, exchange, symbol, *a, **k)
         ex = selectors.get_exchange(exchange)
         before = dict(qty=float(p.qty), entry=None if p.entry_price is None else float(p.entry_price), mode=p.mode,
                       liq=None if p.is_close else float(p.liquidation_price), lev=None if p.strategy is None else p.leverage,
@@ -163,7 +163,7 @@ def install_sim_wrappers():
                       active=[o._vf_ord for o in store.orders.get_active_orders(exchange, symbol) if o.is_active])
         prev, ctx.phase = ctx.phase, 'liquidation'
         try:
-            return o_liq(candle, exchange, symbol)
+            return o_liq(candle, exchange, symbol, *a, **k)
         finally:
             ctx.phase = prev
             ctx.trace.append(dict(ev='liq-check', sym=symbol, candle=[float(x) for x in candle], t=store.app.time, before=before,
@@ -172,9 +172,9 @@ def install_sim_wrappers():
                                              n_trades=len(store.completed_trades.trades),
                                              still_active=[o._vf_ord for o in ctx.recorder.orders if o.symbol == symbol and o.is_active])))
 
-    def daily(is_initial=False):
+    def daily(is_initial=False, *a, **k):
         ctx = CURRENT[0]
-        r = o_daily(is_initial) if is_initial else o_daily()
+        r = o_daily(is_initial, *a, **k) if (is_initial or a or k) else o_daily()
         if ctx is not None:
             ctx.trace.append(dict(ev='daily-balance', t=store.app.time, value=float(store.app.daily_balance[-1]),
                                   n=len(store.app.daily_balance), snap=snapshot_accounts()))
